@@ -156,8 +156,8 @@ def run(report, tier):
         kd.add(harness_dec(q))
     import concurrent.futures as cf
     with cf.ThreadPoolExecutor(max_workers=2) as ex:
-        f1 = ex.submit(kf.run, report, 900, 12, 6)
-        f2 = ex.submit(kd.run, report, 900, 12, 6)
+        f1 = ex.submit(kf.run, report, (480 if tier == "quick" else 3000), 12, 6)
+        f2 = ex.submit(kd.run, report, (480 if tier == "quick" else 3000), 12, 6)
         f1.result()
         f2.result()
     report.functions.update(["generated Unit::name/symbol/si_prefix, LinearScaledUnit::scale, REF_UNIT of 14 catalogue types (f64, decimal) and 4 astronomical types",
